@@ -26,7 +26,8 @@ def main():
     if out.strip():
         print("refusing: /repo has uncommitted changes under hierarc/")
         sys.exit(2)
-    respath = os.path.join(sd, "RESULTS.json")
+    seed = os.environ.get("VERIF_SEED", "0")
+    respath = os.path.join(sd, "RESULTS.json" if seed == "0" else "RESULTS-seed%s.json" % seed)
     results = json.load(open(respath)) if os.path.exists(respath) else {}
     for sid in ids:
         d = os.path.join(sd, sid)
